@@ -166,7 +166,6 @@ theorem inv_readRetry (H : Hpke) (n : Nat) (st : St) (t : Tr) (r : Bytes) (hi : 
   split
   · rename_i e he
     simp only [alertViaConn]
-    apply inv_write
     exact hi.transfer rfl rfl rfl rfl rfl (Or.inr rfl) rfl
   · rename_i o inner st2 hh
     obtain ⟨_, _, _, hproc, _⟩ := handle_inv H _ st2 r true o inner hh
